@@ -3,7 +3,7 @@
 From Coq Require Import ZArith String List Ascii Bool Permutation Sorting.Sorted.
 Import ListNotations.
 From FV.C04 Require Import Text Model Proofs Corr.
-From FV.C02 Require Import Model Proofs ProofsSeries Regex Clusters Corr.
+From FV.C02 Require Import Model Proofs ProofsSeries Regex Clusters Rows Corr.
 From FV.C02.gen Require Import ResCfg.
 
 (* the header skip constants the model uses are the ones of the tree under test *)
@@ -23,6 +23,21 @@ Example C02_split_series_as_written_example :
   /\ clusters [1; 2; 8] = [[1; 2]; [8]]
   /\ split_body_idx body = Ok (firstn 6 body, Some (skipn 6 body))
   /\ clusters [0; 1; 2; 5; 6; 9] = [[0; 1; 2]; [5; 6]; [9]].
+Proof. vm_compute. repeat split; reflexivity. Qed.
+
+(* _parse_res as femio writes it -- ids = raw[0::stride], the value lines as the
+   strided column slices raw[s::stride] joined column by column with
+   connect_all / connect(delimiter=' ') -- is, on EVERY input, the row
+   formulation Model.parse_section (chunks of `stride` lines joined with ' ') *)
+Theorem C02_parse_res_as_written :
+  forall V vparse len_data lines,
+    parse_section_written V vparse len_data lines = parse_section V vparse len_data lines.
+Proof. exact parse_section_written_eq. Qed.
+Example C02_parse_res_as_written_example :
+  let raw := map S ["7"; "1.0E+00 2.0E+00"; "3.0E+00"; "3"; "4.0E+00 5.0E+00"; "6.0E+00"] in
+  strided 0 3 raw = map S ["7"; "3"] /\ strided 2 3 raw = map S ["3.0E+00"; "6.0E+00"]
+  /\ rows_as_written 3 raw = Ok (map S ["7 1.0E+00 2.0E+00 3.0E+00"; "3 4.0E+00 5.0E+00 6.0E+00"])
+  /\ rows_as_written 1 (map S ["7"; "3"]) = Ok (map S ["7"; "3"]).
 Proof. vm_compute. repeat split; reflexivity. Qed.
 
 (* per-run tie of the file layer (shared with C04): StringSeries.read_file /
@@ -253,6 +268,7 @@ Qed.
 
 Print Assumptions C02_res_roundtrip.
 Print Assumptions C02_split_series_as_written.
+Print Assumptions C02_parse_res_as_written.
 Print Assumptions C02_series_any_file_order.
 Print Assumptions C02_elemental_ids_row_order_free.
 Print Assumptions C02_steps_sorted_stack.
